@@ -84,12 +84,16 @@ def repo_hash():
     return file_hash(repo_sources())
 
 
-def _prune_cache(keep=6):
+def _prune_cache(keep=40, min_age_s=3 * 3600):
+    """drop old cached builds of other trees: only directories not used for min_age_s, beyond the
+    `keep` most recent (several checks / scratch worktrees may be in use concurrently)"""
     try:
         ds = [os.path.join(BUILD, d) for d in os.listdir(BUILD) if d.startswith('repo-')]
         ds.sort(key=lambda d: os.path.getmtime(d), reverse=True)
+        now = time.time()
         for d in ds[keep:]:
-            shutil.rmtree(d, ignore_errors=True)
+            if now - os.path.getmtime(d) > min_age_s:
+                shutil.rmtree(d, ignore_errors=True)
     except OSError:
         pass
 
